@@ -245,11 +245,11 @@ fn robustness(thorough: bool, seed: u64, out: &mut dyn FnMut(String)) {
     for &n in &sizes {
         for little in [true, false] {
             k += 1;
-            if !thorough && n > 1100 && !little && n != 4096 { continue; }
+            if n > 1100 && !little && (!thorough || n >= 8000) { continue; }
             let a = arr(&[n], &fill(k, n, &mut fx));
             out(format!("roundtrip {a} none {}", spell(little, k)));
             if n <= 1100 || thorough { out(format!("unpack {a} none none {}", spell(little, k + 1))); }
-            if n <= 1100 || (thorough && little) {
+            if n <= 1100 || (thorough && little && n <= 5000 && n % 4 == 0) {
                 let ax = if k % 2 == 0 { "0" } else { "-1" };
                 out(format!("{} {a} {ax} {}", opname_w("roundtrip", n, ax, thorough || (little && [128, 136, 256, 264].contains(&n))), spell(little, k + 2)));
             }
@@ -265,22 +265,21 @@ fn robustness(thorough: bool, seed: u64, out: &mut dyn FnMut(String)) {
     if thorough { lanes.extend([127, 160, 248, 272, 1016, 1040, 2048]); }
     for &l in &lanes {
         let mut forms: Vec<(Vec<usize>, isize)> = vec![(vec![2, l], 1), (vec![l, 2], 0), (vec![1, l], -1)];
-        if l <= 600 || thorough { forms.extend([(vec![2, l], -1), (vec![l, 2], -2), (vec![l, 1], 0)]); }
+        if l <= 600 || (thorough && l < 2048) { forms.extend([(vec![2, l], -1), (vec![l, 2], -2), (vec![l, 1], 0)]); }
         if l <= 300 { forms.extend([(vec![2, l, 2], 1), (vec![3, l], 1), (vec![l, 3], -2)]); }
         for (sh, ax) in forms {
             k += 1;
             let n = prod(&sh);
             let a = arr(&sh, &fill(k, n, &mut fx));
             let axs = ax.to_string();
-            let little_first = [true, false];
-            for little in little_first {
-                if !little && k % 3 != 0 && !thorough { continue; }
+            for little in [true, false] {
+                if !little && (k % 3 != 0 || l >= 1024) && (!thorough || l >= 2048) { continue; }
                 let wide = thorough || (little && l == 128 && sh.len() == 2 && sh.contains(&2));
                 out(format!("{} {a} {axs} {}", opname_w("roundtrip", n, &axs, wide), spell(little, k)));
-                if k % 2 == 0 { out(format!("{} {a} {axs} none {}", opname_w("unpack", n, &axs, thorough), spell(little, k + 1))); }
+                if k % 2 == 0 && (l < 1024 || (thorough && l < 2048)) { out(format!("{} {a} {axs} none {}", opname_w("unpack", n, &axs, thorough), spell(little, k + 1))); }
             }
             // the other axis of the same array (short lanes) and the flat form
-            if sh.len() == 2 && k % 4 == 0 {
+            if sh.len() == 2 && k % 4 == 0 && (l < 1024 || (thorough && l < 2048)) {
                 let other = (1 - (ax + 2) % 2).to_string();
                 out(format!("{} {a} {other} {}", opname_w("roundtrip", n, &other, thorough), spell(true, k)));
                 out(format!("roundtrip {a} none {}", spell(true, k + 1)));
@@ -288,23 +287,23 @@ fn robustness(thorough: bool, seed: u64, out: &mut dyn FnMut(String)) {
         }
     }
     // lanes above 4096 bytes (reference lane semantics; ~2 s of model time each)
-    let huge: Vec<(Vec<usize>, isize)> = if thorough { vec![(vec![1, 4104], 1), (vec![4096, 1], -2), (vec![4104, 1], 0), (vec![2, 4096], -1), (vec![4100, 2], 0), (vec![1, 8192], 1)] }
+    let huge: Vec<(Vec<usize>, isize)> = if thorough { vec![(vec![1, 4104], 1), (vec![4096, 1], -2), (vec![2, 4096], -1), (vec![4100, 2], 0)] }
                                          else { vec![(vec![1, 4104], 1)] };
     for (sh, ax) in huge {
         k += 1;
         let a = arr(&sh, &fill(k, prod(&sh), &mut fx));
         out(format!("roundtrip_ref {a} {ax} {}", spell(true, k)));
-        if thorough { out(format!("roundtrip_ref {a} {ax} {}", spell(false, k))); }
+        if thorough && prod(&sh) < 4200 { out(format!("roundtrip_ref {a} {ax} {}", spell(false, k))); }
     }
     // (R1.c) bit arrays around 128*8, 256*8, 1024*8, 4096*8 bits: flat, both orders, bits and values > 1
     let mut blens: Vec<usize> = vec![];
     for c in [1024usize, 2048, 8192] { blens.extend(c - 7..=c + 8); }
-    blens.extend([504, 512, 520, 1088, 4096, 4100, 16384, 16385, 32767, 32768, 32776]);
-    if thorough { blens.extend(32761..=32775); blens.extend([65536, 65537, 65600]); blens.extend(4089..=4104); }
+    blens.extend([504, 512, 520, 1088, 4096, 4100, 16384, 16385, 32767, 32768]);
+    if thorough { blens.extend(32761..=32766); blens.extend(32769..=32776); blens.extend([65536, 65537]); blens.extend(4089..=4104); }
     for &len in &blens {
         for little in [true, false] {
             k += 1;
-            if len > 10000 && !little && !thorough { continue; }
+            if len > 10000 && !little && (!thorough || len % 8 != 0 || len > 40000) { continue; }
             let a = arr(&[len], &bits_fill(k, len, &mut fx));
             out(format!("pack {a} none {}", spell(little, k)));
             if len <= 9000 && k % 3 == 0 { let ax = if k % 2 == 0 { "0" } else { "-1" }; out(format!("{} {a} {ax} {}", opname_w("pack", len, ax, thorough), spell(little, k + 1))); }
@@ -333,12 +332,13 @@ fn robustness(thorough: bool, seed: u64, out: &mut dyn FnMut(String)) {
         let r = sh.len();
         k += 1;
         let a = arr(&sh, &fill(k, n, &mut fx));
-        out(format!("roundtrip {a} none {}", spell(true, k)));
-        if n <= 2100 || thorough { out(format!("roundtrip {a} none {}", spell(false, k))); }
+        let flat_done = r == 1 && sizes.contains(&n);      // already in (R1.a)
+        if !flat_done && (n <= 4200 || thorough) { out(format!("roundtrip {a} none {}", spell(true, k))); }
+        if !flat_done && (n <= 2100 || thorough) { out(format!("roundtrip {a} none {}", spell(false, k))); }
         if n <= 1100 { out(format!("unpack {a} none none {}", spell(k % 2 == 0, k + 1))); }
         for ax in 0..r {
             let axs = if (ax + k) % 2 == 0 { ax.to_string() } else { (ax as isize - r as isize).to_string() };
-            if n > 2100 && !thorough && ax != k % r { continue; }
+            if n > 2100 && !thorough && (ax != k % r || r == 1) { continue; }
             for little in [true, false] {
                 if !little && !thorough && (n > 2100 || ax != k % r) { continue; }
                 out(format!("{} {a} {axs} {}", opname_w("roundtrip", n, &axs, thorough || (little && ax == k % r)), spell(little, k + ax)));
@@ -352,7 +352,8 @@ fn robustness(thorough: bool, seed: u64, out: &mut dyn FnMut(String)) {
         out(format!("pack {b} none {}", spell(k % 2 == 0, k)));
         for ax in 0..r { if n <= 2100 || thorough || ax == k % r { out(format!("{} {b} {ax} {}", opname_w("pack", n, "0", thorough), spell((k + ax) % 2 == 1, k + ax))); } }
     }
-    if thorough { let a = arr(&[4100], &fill(1, 4100, &mut fx)); out(format!("roundtrip {a} 0 E:little")); }
+    // the crate-pipeline model once on a lane above 2048 bytes (~10 s of model time)
+    if thorough { let a = arr(&[2056], &fill(1, 2056, &mut fx)); out(format!("roundtrip {a} 0 E:little")); }
 
     // (R3) zero-length axes
     for sh in zero_shapes() {
